@@ -119,6 +119,8 @@ def rclasses():
             players = RelatedJoin('VcPlayer')
 
         class VcCaptain(SQLObject):
+            class sqlmeta:
+                cacheValues = False       # every read goes to the database: also the read behind the foreign-key attribute
             u = IntCol(alternateID=True)
             team = ForeignKey('VcTeam', default=None)
         _rcls = [VcTeam, VcPlayer, VcTag, VcCaptain]
@@ -165,8 +167,11 @@ def gen_rel(rng):
                 continue
             kk, h = rng.choice(cand)
             ops.append(['rjoin', h, rng.choice(RJOINS[kk])])
-        elif r < 0.90 and live[1] and live[2]:
+        elif r < 0.88 and live[1] and live[2]:
             ops.append(['rlink', rng.choice(live[1]), rng.choice(live[2])])
+        elif r < 0.92 and nid[0] and (live[1] or live[3]):
+            kk = rng.choice([x for x in (1, 3) if live[x]])
+            ops.append(['rsetfk', rng.choice(live[kk]), 'team', rng.choice([None, rng.randint(1, nid[0])])])
         elif r < 0.96:
             kk, h = rng.choice(allive)
             ops.append(['rdrop', h])
@@ -230,7 +235,7 @@ def run_rel(case):
     try:
         for op in case['ops']:
             t = op[0]
-            res, exc = [], None
+            res, exc, stored = [], None, None
             try:
                 if t == 'rcreate':
                     k, u, f = op[1], op[2], dict(op[3])
@@ -253,6 +258,14 @@ def run_rel(case):
                     if o is not None:
                         res = [desc(o)]
                         slots[-1] = o
+                    if src is not None and hasattr(type(src), op[2]) and op[2] == 'team':
+                        # what the row says the key is now (raw SQL on the connection in use)
+                        raw = use.queryOne('SELECT team_id FROM %s WHERE id = %d' % (type(src).sqlmeta.table, src.id))
+                        stored = [raw[0] if raw else 'gone', None if o is None else o.id]
+                elif t == 'rsetfk':
+                    src = slots[op[1]] if op[1] < len(slots) else None
+                    if src is not None and hasattr(type(src), op[2]):
+                        setattr(src, op[2] + 'ID', op[3])
                 elif t == 'rjoin':
                     src = slots[op[1]] if op[1] < len(slots) else None
                     v = getattr(src, op[2]) if src is not None and hasattr(type(src), op[2]) else []
@@ -274,7 +287,8 @@ def run_rel(case):
             except Exception as e:  # noqa
                 exc = type(e).__name__
                 gc.collect(0)
-            out.append({'res': res, 'exc': exc, 'held': [None if o is None else [cls.index(type(o)), o.id] for o in slots]})
+            out.append({'res': res, 'exc': exc, 'stored': stored,
+                        'held': [None if o is None else [cls.index(type(o)), o.id] for o in slots]})
     finally:
         slots[:] = []
         if mode == 'txn':
@@ -299,6 +313,9 @@ def rel_failures(case, obs):
                 why = 'a second instance of row %s/%d was handed out while the application still holds one (slots %s)' % (RCLASSES[k], i, held)
             if why:
                 yield {'step': n, 'op': op, 'what': why, 'row': [k, i], 'mode': case['mode'], 'cache': case['cfg']['cache'], 'rel': True}
+        if st.get('stored') and st['stored'][0] != 'gone' and st['stored'][0] != st['stored'][1] and not st['exc']:
+            yield {'step': n, 'op': op, 'what': 'the foreign-key attribute handed out the object of id %r although the row stores %r' % (
+                st['stored'][1], st['stored'][0]), 'mode': case['mode'], 'cache': case['cfg']['cache'], 'rel': True}
         if st['exc'] and not (op[0] in ('rget', 'rfk') and st['exc'] == 'SQLObjectNotFound'):
             yield {'step': n, 'op': op, 'what': 'operation raised %s' % st['exc'], 'mode': case['mode'], 'rel': True}
         prev = st['held']
